@@ -341,7 +341,9 @@ def proj_case(draw, tier, kinds):
     m = draw(st.integers(2, 5)) if typ in ("povm", "mprocess") else None
     mode = draw(st.sampled_from(MODES[kind]))
     scale = draw(st.one_of(st.just(1.0), gen.log_uniform(1e-3, 1e3), gen.log_uniform(1e-3, 1e3),
-                           gen.log_uniform(1e-3, 1e-1), gen.log_uniform(1e1, 1e3)))
+                           gen.log_uniform(1e-3, 1e-1), gen.log_uniform(1e1, 1e3), st.just(1e3), st.just(1e-3),
+                           # beyond the documented range: the magnitudes a relative-entropy gradient step hands to the projection
+                           gen.log_uniform(1e3, 1e6)))
     case = {
         "kind": kind,
         "type": typ,
@@ -363,7 +365,12 @@ def proj_case(draw, tier, kinds):
         if case["mshape"] is not None:
             case["mshape"] = list(case["mshape"])
     if mode == "sparse":
-        case["sparse"] = draw(gen.raw(stacked_size(typ, shape, m)))
+        # genuinely sparse: about half of the coefficients are exactly zero (real-symmetric operators, missing Pauli
+        # components) next to entries of the drawn scale
+        n_sp = stacked_size(typ, shape, m)
+        vals = draw(gen.raw(n_sp))
+        keep = draw(st.lists(st.booleans(), min_size=n_sp, max_size=n_sp))
+        case["sparse"] = [v if k else 0.0 for v, k in zip(vals, keep)]
     if mode == "spectral":
         k = n_ops(typ, m) * op_dim(typ, gen.dim_of(shape))
         case["spec"] = draw(st.lists(st.sampled_from(LEVELS), min_size=k, max_size=k))
